@@ -234,3 +234,42 @@ fn check_rank_matches_next() {
         }
     }
 }
+
+// ------------------------------------------------------------------------------------------
+// C08 / C11 / C14: Key::distance is the bit-wise XOR of the two 32-byte hashes read big-endian, and
+// Key::log2_distance is None iff the hashes are equal, else 1 + the index of the highest differing bit
+// (counted from the least significant end) — stated on the BYTES, independently of uint::U256
+// ------------------------------------------------------------------------------------------
+/// bit `i` (0 = least significant) of a 32-byte big-endian number
+fn be_bit(h: &[u8; 32], i: usize) -> bool {
+    (h[31 - i / 8] >> (i % 8)) & 1 == 1
+}
+#[kani::proof]
+#[kani::unwind(258)]
+fn check_key_log2_distance() {
+    use enr::k256::sha2::digest::generic_array::GenericArray;
+    let a: [u8; 32] = kani::any();
+    let b: [u8; 32] = kani::any();
+    let ka: Key<u8> = Key::new_raw(0u8, *GenericArray::from_slice(&a));
+    let kb: Key<u8> = Key::new_raw(1u8, *GenericArray::from_slice(&b));
+    let d = ka.distance(&kb);
+    // XOR, bit by bit (an arbitrary bit position stands for all)
+    let i: usize = kani::any();
+    kani::assume(i < 256);
+    assert!(bit(&d.0, i) == (be_bit(&a, i) != be_bit(&b, i)), "C08.distance: bit i of the distance is a_i xor b_i");
+    let r = ka.log2_distance(&kb);
+    // highest differing bit
+    let mut hi: Option<usize> = None;
+    let mut k = 0;
+    while k < 256 {
+        if be_bit(&a, k) != be_bit(&b, k) { hi = Some(k); }
+        k += 1;
+    }
+    match hi {
+        None => assert!(r.is_none(), "C08.log2: equal hashes have no log2 distance"),
+        Some(m) => assert!(r == Some(m as u64 + 1), "C08.log2: log2 distance is 1 + index of the highest differing bit"),
+    }
+    assert!(r == kb.log2_distance(&ka), "C08.log2: symmetric");
+    kani::cover!(hi == Some(255));
+    kani::cover!(hi == Some(0));
+}
